@@ -415,6 +415,17 @@ func (e *Engine) opNew(c *cursor) *Violation {
 			op.Variant = "NewEntity"
 		}
 	} // else: the component-value entry points with an empty (not nil) list of components
+	if e.resetCount == 0 && len(e.prelude) < 6 && !e.locked() && e.creationLegal(op) == "" {
+		// the first creations of a world: what a program does when it sets a simulation up - and does again after Reset
+		cp := *op
+		cp.CloneOf = nil
+		e.prelude = append(e.prelude, cp)
+	}
+	return e.runNew(op)
+}
+
+// runNew issues a single creation and takes its result over.
+func (e *Engine) runNew(op *COp) *Violation {
 	res, ok, v := e.issue(op, e.creationLegal(op))
 	if v != nil || !ok {
 		return v
@@ -1164,6 +1175,10 @@ func (e *Engine) opReset(c *cursor) *Violation {
 	}
 	e.St.Faults["reset"]++
 	e.resetCount++
+	if len(e.prelude) > 0 && c.n(2) == 1 {
+		// the same set-up calls as at the start, with the same (long-lived) builders and the same handle values
+		e.replayQ = append([]COp{}, e.prelude...)
+	}
 	e.M.clearEntities()
 	for i := range e.M.Res {
 		e.M.Res[i] = nil
